@@ -25,7 +25,7 @@ PROXY_HEADERS = [None, [("X-Route", "a"), ("Via", "p")], [("PROXY-AUTHORIZATION"
 REQ_HEADERS = [[], [("X-Caller", "1")], [("proxy-authorization", "mine"), ("X-ROUTE", "b")], [("Authorization", "secret"), ("x-caller", "2"), ("X-Caller", "3")]]
 ORIGINS = [("http", "a.example", None), ("http", "a.example", 8080), ("https", "a.example", None), ("https", "b.example", 8443)]
 # IP-literal hosts (the authority needs brackets for IPv6) - explored with the first/last credentials and header choices
-IP_ORIGINS = [("http", "[::1]", 8080), ("https", "[::1]", None), ("https", "[2001:db8::2]", 8443), ("https", "127.0.0.1", None)]
+IP_ORIGINS = [("http", "[::1]", 8080), ("http", "[::1]", None), ("https", "[::1]", None), ("https", "[2001:db8::2]", 8443), ("https", "127.0.0.1", None)]
 # request extensions that address the ORIGIN exchange and must not redirect a proxy hop
 EXTS = [None, {"sni_hostname": "sni.example"}, {"target": b"/t/alt?y=2"}]
 BODIES = [None, b"caller-body"]
